@@ -342,6 +342,7 @@ func runC02(r *Report) {
 	}
 	// ---- R5
 	c02R5(r)
+	c02FuseCount(r, "R5")
 }
 
 // c02R5: FUSE reads are serialised (shared with C01: a reply for offset X must carry the bytes of offset X).
@@ -514,4 +515,69 @@ func c02R5(r *Report) {
 // sub returns a view of the report that records under another rule name (for shared obligations).
 func (r *Report) sub(rule string) *Report {
 	return &Report{Prop: r.Prop, P: r.P, Analysed: r.Analysed, keys: r.keys, parent: r, subRule: rule}
+}
+
+// c02FuseCount: a FUSE read answers with exactly the bytes the Reader delivered: after io.ReadFull(handle.reader,
+// resp.Data) every path to the return re-slices resp.Data to the count returned. The buffer is sized for the request;
+// at the end of a file (or on an abandoned read) the rest of it is stale memory, which the kernel would hand to the
+// application as file content.
+func c02FuseCount(r *Report, rule string) {
+	p := r.P
+	rd := p.Func("fuse", "handle.Read")
+	if rd == nil {
+		return // package fuse is excluded by build tags on this variant
+	}
+	n := 0
+	for _, f := range p.SrcFuncs() {
+		if relPkg(f) != "fuse" || !(f == rd || p.inUnitOf(enclosingNamed(f), rd)) {
+			continue
+		}
+		allInstrs(f, func(in ssa.Instruction) {
+			c, ok := in.(*ssa.Call)
+			if !ok {
+				return
+			}
+			isFull := isStdCall(c, "io", "", "ReadFull") || isStdCall(c, "io", "", "ReadAtLeast")
+			isRead := c.Call.IsInvoke() && c.Call.Method.Name() == "Read"
+			if !isFull && !isRead {
+				return
+			}
+			// the destination: a load of the response's Data field
+			dst := c.Call.Args[len(c.Call.Args)-1]
+			if isFull {
+				dst = c.Call.Args[1]
+			}
+			fv, _ := loadedFieldAny(strip(dst))
+			if fv == nil || fv.Name() != "Data" {
+				if sl, isSl := strip(dst).(*ssa.Slice); isSl {
+					fv, _ = loadedFieldAny(sl.X)
+				}
+			}
+			if fv == nil || fv.Name() != "Data" {
+				return
+			}
+			n++
+			r.Fn(f)
+			cnt := extractOf(c, 0)
+			resliced := func(i ssa.Instruction) bool {
+				st, ok := i.(*ssa.Store)
+				if !ok {
+					return false
+				}
+				fa, ok := st.Addr.(*ssa.FieldAddr)
+				if !ok || fieldVar(fa) != fv {
+					return false
+				}
+				sl, ok := st.Val.(*ssa.Slice)
+				return ok && sl.High != nil && cnt != nil && stripIntConv(sl.High) == ssa.Value(cnt)
+			}
+			exits := exitsAvoiding(c, resliced, false)
+			msg := ""
+			if len(exits) > 0 {
+				msg = fmt.Sprintf("a path from the read to the return (%s) does not cut resp.Data down to the count the read returned: at the end of the file, or when the read is abandoned, the reply carries the stale rest of the buffer as file content", p.pos(exits[0].Pos()))
+			}
+			r.Check(len(exits) == 0, rule, fname(f)+"/reply-cut-to-count", c.Pos(), "resp.Data is re-sliced to the returned count on every path", msg)
+		})
+	}
+	r.Sentinel(rule+".fuse-read", n, 1)
 }
